@@ -7,6 +7,7 @@ import (
 	"fmt"
 	"io"
 	"os/exec"
+	"sort"
 	"strconv"
 	"strings"
 	"sync"
@@ -193,6 +194,8 @@ func (s *Solver) Check(ts []*Term, wantModel bool) (Result, *Model) {
 }
 
 var solverSeq int64
+var domainDecided, cacheHits int64
+var queryCache sync.Map
 
 func (s *Solver) script(ts []*Term, wantModel bool, vars []*Term, pname string) string {
 	var sb strings.Builder
@@ -234,11 +237,42 @@ func (s *Solver) CheckOn(first int, ts []*Term, wantModel bool) (Result, *Model)
 	if len(live) == 0 && !wantModel {
 		return Sat, &Model{Str: map[string]string{}, Int: map[string]int64{}, Bool: map[string]bool{}}
 	}
+	if c, decided, res := compressQuery(live, wantModel); decided {
+		atomic.AddInt64(&domainDecided, 1)
+		if res == Sat && wantModel {
+			// fall through to the solver for the model
+		} else {
+			return res, nil
+		}
+	} else {
+		live = c
+	}
+	var ckey string
+	if !wantModel {
+		ids := make([]int, len(live))
+		for i, t := range live {
+			ids[i] = t.id
+		}
+		sort.Ints(ids)
+		var sb strings.Builder
+		for _, id := range ids {
+			sb.WriteString(strconv.Itoa(id))
+			sb.WriteByte(',')
+		}
+		ckey = sb.String()
+		if v, ok := queryCache.Load(ckey); ok {
+			atomic.AddInt64(&cacheHits, 1)
+			return v.(Result), nil
+		}
+	}
 	order := []int{first, 1 - first}
 	for _, pi := range order {
 		p := s.procs[pi]
 		r, m := s.runOn(p, live, wantModel)
 		if r != Unknown {
+			if ckey != "" {
+				queryCache.Store(ckey, r)
+			}
 			return r, m
 		}
 	}
